@@ -7,12 +7,19 @@ from xknx.io.device_management import DeviceManagement
 from xknx.io.tunnel import UDPTunnel
 from xknx.knxip import DeviceConfigurationAck, DeviceConfigurationRequest, TunnellingAck, TunnellingRequest
 
-COUNTER = Obj(IncomingSequenceCounter, expected=Int(0, 255))
+def counter(expected):
+    """A counter as the code builds it (real constructor - whatever fields it has), at a given expected
+    value: the verdict is a function of `expected` and the received counter only."""
+    c = IncomingSequenceCounter()
+    c.expected = expected
+    return c
 
 
-@lemma("C23", params=dict(c=COUNTER, n=Int(0, 255)))
-def evaluate_contract(c, n):
-    """Total on [0,255]^2; the expected counter wraps at 256; only `expected` is modified."""
+@lemma("C23", params=dict(e0=Int(0, 255), n=Int(0, 255)))
+def evaluate_contract(e0, n):
+    """Total on [0,255]^2; the expected counter wraps at 256; the verdict depends on nothing but the
+    expected and the received counter."""
+    c = counter(e0)
     old = c.expected
     v = c.evaluate(n)
     if n == old:
@@ -24,10 +31,21 @@ def evaluate_contract(c, n):
     assert 0 <= c.expected <= 255
 
 
-@lemma("C23", params=dict(c=COUNTER))
-def reset_contract(c):
-    c.reset()
+@lemma("C23", params=dict(e0=Int(0, 255), used=Const(True)), family=[dict(how="constructor"), dict(how="reset")])
+def a_fresh_connection_expects_zero_and_repeats_255(how, e0, used):
+    """Every established connection starts at 0 (constructor / reset()); on it counter 255 is the frame just
+    before the expected one (acknowledged again, not passed up) and 0 the expected one - whether or not
+    anything has been accepted on this connection yet."""
+    if how == "constructor":
+        c = IncomingSequenceCounter()
+    else:
+        c = counter(e0)
+        c.evaluate(e0)
+        c.reset()
     assert c.expected == 0
+    assert c.evaluate(255) is SequenceVerdict.REPEATED and c.expected == 0
+    assert c.evaluate(1) is SequenceVerdict.OUT_OF_ORDER and c.expected == 0
+    assert c.evaluate(0) is SequenceVerdict.EXPECTED and c.expected == 1
 
 
 def _rec_schedule(self, seconds=2):
@@ -40,7 +58,7 @@ def _rec_cancel(self):
 
 TUNNEL = Obj(
     UDPTunnel,
-    _sequence=COUNTER,
+    _sequence=None,
     transport=Const(RecTransport()),
     _data_endpoint_addr=Const(("10.0.0.1", 3671)),
     cemi_received_callback=Const(RecCallback("up")),
@@ -52,15 +70,16 @@ TREQ = Obj(TunnellingRequest, communication_channel_id=Int(0, 255), sequence_cou
 
 @lemma(
     "C23",
-    params=dict(t=TUNNEL, req=TREQ),
+    params=dict(t=TUNNEL, req=TREQ, e0=Int(0, 255)),
     stubs=[(UDPTunnel, "_invalid_sequence_number_reconnect_schedule", _rec_schedule), (UDPTunnel, "_cancel_invalid_sequence_number_reconnect_schedule", _rec_cancel)],
 )
-def udp_tunnel_request_step(t, req):
+def udp_tunnel_request_step(t, req, e0):
     """One received TunnellingRequest with counter c against expected counter e (any e, any c):
     c == e: acknowledged with its own counter and channel, cEMI passed up once, e advances mod 256;
     c == e-1: acknowledged again, not passed up; otherwise neither, e unchanged.
     By induction over the request history (any losses, duplicates, reordering are just other c's) the
     frames passed up are exactly those carrying the running expected counter, each once, in order."""
+    t._sequence = counter(e0)
     e = t._sequence.expected
     c = req.sequence_counter
     t._tunnelling_request_received(req)
@@ -84,7 +103,7 @@ def udp_tunnel_request_step(t, req):
 
 DM = Obj(
     DeviceManagement,
-    _sequence=COUNTER,
+    _sequence=None,
     transport=Const(RecTransport()),
     communication_channel=Int(0, 255),
     data_endpoint_addr=Const(("10.0.0.1", 3671)),
@@ -93,10 +112,11 @@ DM = Obj(
 DREQ = Obj(DeviceConfigurationRequest, communication_channel_id=Int(0, 255), sequence_counter=Int(0, 255), raw_cemi=Bytes())
 
 
-@lemma("C23", params=dict(d=DM, req=DREQ))
-def device_management_request_step(d, req):
+@lemma("C23", params=dict(d=DM, req=DREQ, e0=Int(0, 255)))
+def device_management_request_step(d, req, e0):
     """Same step contract for device configuration requests; a request for another communication
     channel is neither acknowledged nor passed up and leaves the counter alone."""
+    d._sequence = counter(e0)
     e = d._sequence.expected
     c = req.sequence_counter
     own = req.communication_channel_id == d.communication_channel
